@@ -162,12 +162,16 @@ def main(mod, argv=None):
     if a.only:
         items = [i for i in items if a.only in i['name']]
     # translator validation first: the model of numba semantics vs the compiled kernels
+    valerr = None
     try:
         nvalid = mod.validate(tier)
     except Exception as e:
-        traceback.print_exc()
-        print(f'HARNESS-ERROR property={pid} model validation against the compiled code failed: {e}')
-        return 2
+        # Engine-vs-real-code disagreement on concrete inputs.  If the symbolic items then report a
+        # (replayed) violation, the real code is simply broken on those inputs too; if they
+        # report nothing, the model is not to be trusted: harness error.
+        nvalid = 0
+        valerr = f'{type(e).__name__}: {e}\n{traceback.format_exc()[-1500:]}'
+
     ctxm = mp.get_context('fork')
     nproc = max(1, min(a.procs, len(items)))
     if nproc > 1:
@@ -230,6 +234,11 @@ def main(mod, argv=None):
         for e in inconcl[:5]:
             lines.append(f'INCONCLUSIVE property={pid} item={e.get("item")} {e["what"]}')
         status = 2 if status != 1 else 1
+    if valerr and status == 0:
+        lines.append(f'HARNESS-ERROR property={pid} model validation against the real code failed and no item explains it: {valerr}')
+        status = 2
+    elif valerr:
+        lines.append(f'note: the concrete model-validation step also failed on this tree: {valerr.splitlines()[0][:300]}')
     if vacuous:
         lines.append(f'HARNESS-ERROR property={pid} vacuous items (no obligation reached): {vacuous[:8]}')
         status = 2 if status != 1 else 1
